@@ -606,7 +606,7 @@ def run_interleave(case):
         cfgmod._gen_nt.i = 0
         return make()
 
-    res = eh.explore_interleaved(make_det, list(range(len(pool))), queries, apply_builder, apply_query, same, depth=4 if TIER != "thorough" else 5, max_queries=2)
+    res = eh.explore_interleaved(make_det, list(range(len(pool))), queries, apply_builder, apply_query, same, depth=4, max_queries=2)
     fails = []
     seen = set()
     for hist, have, want in res["violations"]:
